@@ -136,7 +136,7 @@ def gen(tier: str, seed: int):
     gated = gated_features()
     cfg = c10.make_cfg(gated)
     groups = []
-    n_random = 5 if tier == "quick" else 120
+    n_random = 5 if tier == "quick" else 80
     packs = [("ties", tie_package(rng, gated), ["--docstyle", "numpydoc"]), ("ties-nc", tie_package(rng, gated), ["-nc"])]
     for i in range(n_random):
         pkg = pg.random_pkg(rng, cfg)
